@@ -56,7 +56,8 @@ func SafeMul[T Integer](x T, y T) (T, error) {
 
 	result := x * y
 
-	if result/x != y {
+	// the second check catches -1 * MinInt, where the wrapped division result/x equals y again
+	if result/x != y || result/y != x {
 		return 0, ierrors.WithMessagef(ErrIntegerOverflow, "%d * %d", x, y)
 	}
 
